@@ -233,7 +233,7 @@ class Capture:
         self._undo = []
 
 
-def run_case(iso3, options, title="verif", capture=True, save_all_results=False):
+def run_case(iso3, options, title="verif", capture=True, save_all_results=False, share_options=False):
     """one three-round run through the public multi-country runner.
     Returns dict(ok, result|exc, cap, out).  Never raises for model-side failures."""
     from vlib.harness import quiet
@@ -244,7 +244,7 @@ def run_case(iso3, options, title="verif", capture=True, save_all_results=False)
         with quiet():
             r = ScenarioRunnerNoTrade()
             if options.get("scale") == "global":
-                cp, tcp, loader = r.set_depending_on_option(copy.deepcopy(options), country_data=None)
+                cp, tcp, loader = r.set_depending_on_option(options if share_options else copy.deepcopy(options), country_data=None)
                 from src.scenarios.run_scenario import ScenarioRunner
                 interp = ScenarioRunner().run_and_analyze_scenario(
                     cp, tcp, loader, False, False, "", None, False, "world", "WOR", title=title)
@@ -252,7 +252,9 @@ def run_case(iso3, options, title="verif", capture=True, save_all_results=False)
             else:
                 out = r.run_model_no_trade(title=title, create_pptx_with_all_countries=False,
                                            show_country_figures=False, show_map_figures=False,
-                                           add_map_slide_to_pptx=False, scenario_option=copy.deepcopy(options),
+                                           add_map_slide_to_pptx=False,
+                                           # share_options: hand the caller's very dictionary to the model (as a loop over scenarios does)
+                                           scenario_option=options if share_options else copy.deepcopy(options),
                                            countries_list=[iso3], return_results=True,
                                            save_all_results=save_all_results)
                 results = out[3]
